@@ -433,11 +433,32 @@ class _MainThreadView:
         return self._rec.name
 
 
+#: threading.Thread._delete as the trace function of a real process sees it: a python frame of the thread that runs
+#: (traced) AFTER the thread has taken itself out of the registry of running threads.  From there on
+#: threading.current_thread() does not find the thread and makes up a _DummyThread, which it registers for good
+_SIMLIB_THREADING = """
+def _delete(self):
+    "Remove current thread from the dict of currently running threads."
+    self.deleted = True
+    return None
+"""
+_simlib = {}
+exec(compile(_SIMLIB_THREADING, "/simlib/threading.py", "exec"), _simlib)
+
+
+def thread_exit_hook(rec):
+    """What a thread started through threading.Thread does after run() has returned."""
+    if isinstance(getattr(rec, "api", None), SimThread):
+        _simlib["_delete"](rec)
+
+
 def sim_current_thread():
     k = _K()
     if k is None:
         return _rt.current_thread()
     rec = k.me()
+    if getattr(rec, "deleted", False) and rec.name not in k.dummy_threads:
+        k.dummy_threads.append(rec.name)
     api = getattr(rec, "api", None)
     if api is None:
         api = rec.api = _MainThreadView(rec)
